@@ -84,13 +84,17 @@ def check_case(run, case):
             r = oe(section_list); found['e'] = list(r[0]); return r
         def web_rec(section_list):
             r = ow(section_list); found['w'] = list(r[0]); return r
+        from lib_trainer.detection_rules.keyboard_walk import detect_keyboard_walk as ref_kw
+        from lib_trainer.detection_rules.email_detection import email_detection as ref_email
+        from lib_trainer.detection_rules.website_detection import website_detection as ref_web
         sc = load_scorer(path)
         train_set = [p for p, k in case['items']]
         guess_sample = rng.sample(sorted(emitted), min(len(emitted), 150))
         cands = list(train_set) + guess_sample
         cands += [perturb(rng, s) for s in rng.choices(train_set + guess_sample, k=200)]
         cands += [trainlists.password(rng, ('ascii', 'cyr', 'lat1'), allow_ew=True) for _ in range(60)]
-        cands += ['ǅungla', 'İstanbul1', 'straẞe', 'Σίσυφος', 'a@b.com', 'WWW.X.COM', 'http://a.org/x', 'x@y', 'a.b', '.com', '@', 'q@w.ru1']
+        cands += ['ǅungla', 'İstanbul1', 'straẞe', 'Σίσυφος', 'a@b.com', 'WWW.X.COM', 'http://a.org/x', 'x@y', 'a.b', '.com', '@', 'q@w.ru1', 'John@Gmail.COM', 'mary@x.Org', 'Www.Site.NET/a']
+        cands += [rng.choice([c.upper(), c.title(), c.swapcase()]) for c in rng.sample(trainlists.EMAILS + trainlists.SITES, 4)]
         cands = [c for c in dict.fromkeys(cands) if oracles.valid_password(c) and trainlists.encodable(c, case['encoding'])]
         sp.email_detection, sp.website_detection = email_rec, web_rec
         first = {}
@@ -108,6 +112,15 @@ def check_case(run, case):
                 first[s] = r
                 _, cat, p, omen = r
                 fe, fw = found.get('e', []), found.get('w', [])
+                # reference detection, run by the harness itself on the same detectors in the order the trainer uses them: what the scorer's own
+                # calls saw is only a cross-check (a scorer that never calls a detector must not pass for "nothing detected")
+                secs, _, _ = ref_kw(s)
+                re_, _ = ref_email(secs)
+                rw_ = ref_web(secs)[0]
+                if (bool(re_), bool(rw_ and not re_)) != (bool(fe), bool(fw and not fe)):
+                    if re_ or rw_:
+                        fe, fw = re_, rw_
+                        run.ev('detection_only_seen_by_reference')
                 if fe:
                     if cat != 'e' or p != 0:
                         run.violation(f'{s!r}: an e-mail address was detected but the result is category {cat!r}, probability {p!r}', case); return
